@@ -19,6 +19,13 @@
    on the thread server the worker thread dies with the socket open; on the multiplex server
    the exception ends the daemon's request loop, so EVERY other connection is abandoned.
 
+   The set of registered objects is part of the state: the application registers and
+   unregisters objects (by id, by object, or a weakly registered object is garbage collected)
+   in between the connection events, and "is the requested object known" is evaluated against
+   the registry as it is when the CONNECT / the INVOKE is processed.  Object ids are numbers
+   (the harness numbers the id strings); id 0 is the daemon's own Pyro.Daemon object, which is
+   always registered.
+
    The structural facts of the source the machine depends on are parameters (record [cfg]);
    tools/gen/gen_handshake.py regenerates their values from the source on every run
    (Gen/GenHandshake.v).  Definitions only — proofs are in Proofs/HandshakeGate.v. *)
@@ -55,7 +62,7 @@ Inductive vb :=
 | VAbort (keyboard_interrupt : bool).    (* raises a BaseException that is not an Exception; flag: it is a
                                             KeyboardInterrupt, which the multiplex server's loop catches to stop *)
 
-Inductive objref := ObjKnown | ObjUnknown | ObjBad.   (* ObjBad: unhashable id -> TypeError on lookup *)
+Inductive objref := ObjId (n : N) | ObjBad.   (* ObjBad: unhashable id -> TypeError on lookup *)
 
 (* what the payload is when read as a handshake request *)
 Inductive hs_payload :=
@@ -72,9 +79,11 @@ Inductive meth := MUnknown | MReturns | MRaises.
 (* the registered object a call addresses: an application object, or the daemon's own
    built-in Pyro.Daemon object (ping, registered, info, get_metadata) *)
 Inductive target := TUser | TDaemon.
+(* a call names an object id (None: an unhashable / non-id value), and says what the method would do
+   if that id is registered when the call is processed *)
 Inductive call_payload :=
 | CpFail (d : decfail)
-| CpCall (obj_known : bool) (t : target) (m : meth) (tok : N).
+| CpCall (o : option N) (t : target) (m : meth) (tok : N).
 
 Record msg := {
   m_type : N; m_wf : wf; m_ser : N; m_ser_known : bool; m_seq : N; m_oneway : bool;
@@ -87,7 +96,32 @@ Inductive input :=
 
 (* e_denied: the thread-pool server had no free worker when this connection arrived (only
    looked at for the connection's first event, only on the thread server) *)
-Record event := { e_conn : nat; e_in : input; e_denied : bool }.
+Record cevent := { e_conn : nat; e_in : input; e_denied : bool }.
+
+(* what the application does with the daemon's registry in between *)
+Inductive appev :=
+| Register (id : N)             (* daemon.register(obj, id) (also weak=True) *)
+| UnregisterById (id : N)       (* daemon.unregister("id") *)
+| UnregisterByObject (id : N)   (* daemon.unregister(obj) for the object registered under id *)
+| GcWeak (id : N).              (* the weakly registered object was collected: its finalizer unregisters the id *)
+
+Inductive event := EvConn (ce : cevent) | EvApp (a : appev).
+
+Definition registry := N -> bool.
+Definition daemon_oid : N := 0%N.
+Definition reg_init : registry := fun n => (n =? daemon_oid)%N.
+Definition reg_set (r : registry) (id : N) (b : bool) : registry :=
+  fun n => if (n =? id)%N then b else r n.
+(* the daemon's own object cannot be unregistered (unregister returns early for DAEMON_NAME) *)
+Definition reg_remove (r : registry) (id : N) : registry :=
+  if (id =? daemon_oid)%N then r else reg_set r id false.
+Definition app_reg (r : registry) (a : appev) : registry :=
+  match a with
+  | Register id => reg_set r id true
+  | UnregisterById id | UnregisterByObject id | GcWeak id => reg_remove r id
+  end.
+Definition obj_registered (r : registry) (o : objref) : bool :=
+  match o with ObjId n => r n | ObjBad => false end.
 
 (* ---- outputs ---- *)
 Inductive reason := RsnValidator | RsnUnknownObject | RsnDenied | RsnOther.
@@ -111,7 +145,7 @@ Definition validator_reached (g : cfg) (m : msg) : bool :=
 
 (* ---- the first message of a connection: Daemon._handshake ----
    result: the answer sent (kind, seq, serializer id) if any, and the outcome *)
-Definition hs_result (g : cfg) (m : msg) : option (rkind * N * N) * hs_outcome :=
+Definition hs_result (g : cfg) (reg : registry) (m : msg) : option (rkind * N * N) * hs_outcome :=
   let fail_early := (Some (RConnectFail RsnOther, 0%N, c_marshal g), HsRefuse) in
   let fail r := (Some (RConnectFail r, m_seq m, m_ser m), HsRefuse) in
   let silent := (@None (rkind * N * N), HsRefuse) in
@@ -139,9 +173,10 @@ Definition hs_result (g : cfg) (m : msg) : option (rkind * N * N) * hs_outcome :
           | VAbort k => validator_aborted k
           | VAccept s =>
               match o with
-              | ObjUnknown => fail RsnUnknownObject
               | ObjBad => fail RsnOther
-              | ObjKnown => if s then (Some (RConnectOk, m_seq m, m_ser m), HsAccept) else fail RsnOther
+              | ObjId n =>
+                  if reg n then (if s then (Some (RConnectOk, m_seq m, m_ser m), HsAccept) else fail RsnOther)
+                  else fail RsnUnknownObject
               end
           end
       end
@@ -169,12 +204,12 @@ Definition reply_outs (c : nat) (r : option (rkind * N * N)) : list out :=
 (* the transport server enters the request loop / registers the connection only if the gate holds *)
 Definition gated (g : cfg) (sty : servertype) : bool := c_gate g sty && c_ok_only g.
 
-Definition denied_applies (sty : servertype) (e : event) : bool :=
+Definition denied_applies (sty : servertype) (e : cevent) : bool :=
   match sty with Thread => e_denied e | Multiplex => false end.
 
 (* result of the first event: new state of the connection, outputs, and whether the daemon's
    request loop ended (multiplex server, BaseException out of the validator) *)
-Definition step_first (g : cfg) (sty : servertype) (e : event) : cstate * list out * bool :=
+Definition step_first (g : cfg) (sty : servertype) (reg : registry) (e : cevent) : cstate * list out * bool :=
   let c := e_conn e in
   let refused (r : option (rkind * N * N)) :=
     if gated g sty then (Closed, reply_outs c r ++ [SockClosed c], false)
@@ -191,7 +226,7 @@ Definition step_first (g : cfg) (sty : servertype) (e : event) : cstate * list o
     | InPeerGone => refused None
     | InSilence => refused (Some (RConnectFail RsnOther, 0%N, c_marshal g))
     | InMsg m =>
-        match hs_result g m with
+        match hs_result g reg m with
         | (r, HsAccept) => (Accepted, reply_outs c r, false)
         | (r, HsRefuse) => refused r
         | (_, HsAbort kbd) =>
@@ -207,7 +242,7 @@ Definition step_first (g : cfg) (sty : servertype) (e : event) : cstate * list o
     end.
 
 (* ---- every later event: Daemon.handleRequest inside the transport server's loop ---- *)
-Definition step_later_msg (g : cfg) (c : nat) (m : msg) : cstate * list out :=
+Definition step_later_msg (g : cfg) (reg : registry) (c : nat) (m : msg) : cstate * list out :=
   let closed := (Closed, [SockClosed c]) in
   let rep k := if m_oneway m then [] else [Reply c k (m_seq m) (m_ser m)] in
   match m_wf m with
@@ -223,17 +258,21 @@ Definition step_later_msg (g : cfg) (c : nat) (m : msg) : cstate * list out :=
       | CpFail DfKeep => (Accepted, rep RError)
       | CpFail DfCloseReply => (Closed, rep RError ++ [SockClosed c])
       | CpFail DfCloseSilent => closed
-      | CpCall false _ _ _ => (Accepted, rep RError)
-      | CpCall true _ MUnknown _ => (Accepted, rep RError)
-      | CpCall true t MReturns tok => (Accepted, Exec c t tok :: rep RResult)
-      | CpCall true t MRaises tok => (Accepted, Exec c t tok :: rep RError)
+      | CpCall o t me tok =>
+          if match o with Some n => reg n | None => false end then
+            match me with
+            | MUnknown => (Accepted, rep RError)
+            | MReturns => (Accepted, Exec c t tok :: rep RResult)
+            | MRaises => (Accepted, Exec c t tok :: rep RError)
+            end
+          else (Accepted, rep RError)       (* unknown object *)
       end
     end
   end.
 
-Definition step_later (g : cfg) (sty : servertype) (c : nat) (i : input) : cstate * list out :=
+Definition step_later (g : cfg) (sty : servertype) (reg : registry) (c : nat) (i : input) : cstate * list out :=
   match i with
-  | InMsg m => step_later_msg g c m
+  | InMsg m => step_later_msg g reg c m
   | InPeerGone => (Closed, [SockClosed c])
   | InSilence =>
       (* thread server: the worker's blocking read times out; multiplex server: an idle registered
@@ -248,23 +287,35 @@ Definition upd (st : conns) (c : nat) (s : cstate) : conns :=
   fun c' => if Nat.eqb c' c then s else st c'.
 Definition all_abandoned : conns := fun _ => Abandoned.
 
-Definition step (g : cfg) (sty : servertype) (st : conns) (e : event) : conns * list out :=
+Definition step_conn (g : cfg) (sty : servertype) (reg : registry) (st : conns) (e : cevent) : conns * list out :=
   let c := e_conn e in
   match st c with
   | Closed | Abandoned => (st, [])
   | NotHandshaken =>
-      let '(s', o, kill) := step_first g sty e in
+      let '(s', o, kill) := step_first g sty reg e in
       (upd (if kill then all_abandoned else st) c s', o)
-  | Accepted => let '(s', o) := step_later g sty c (e_in e) in (upd st c s', o)
+  | Accepted => let '(s', o) := step_later g sty reg c (e_in e) in (upd st c s', o)
   end.
 
-Fixpoint final (g : cfg) (sty : servertype) (st : conns) (evs : list event) : conns :=
+(* the whole daemon: connections and registry *)
+Record state := { s_conns : conns; s_reg : registry }.
+Definition init_state : state := {| s_conns := init; s_reg := reg_init |}.
+
+Definition step (g : cfg) (sty : servertype) (s : state) (e : event) : state * list out :=
+  match e with
+  | EvConn ce =>
+      ({| s_conns := fst (step_conn g sty (s_reg s) (s_conns s) ce); s_reg := s_reg s |},
+       snd (step_conn g sty (s_reg s) (s_conns s) ce))
+  | EvApp a => ({| s_conns := s_conns s; s_reg := app_reg (s_reg s) a |}, [])
+  end.
+
+Fixpoint final (g : cfg) (sty : servertype) (st : state) (evs : list event) : state :=
   match evs with
   | [] => st
   | e :: r => final g sty (fst (step g sty st e)) r
   end.
 
-Fixpoint run (g : cfg) (sty : servertype) (st : conns) (evs : list event) : list (list out) :=
+Fixpoint run (g : cfg) (sty : servertype) (st : state) (evs : list event) : list (list out) :=
   match evs with
   | [] => []
   | e :: r => snd (step g sty st e) :: run g sty (fst (step g sty st e)) r
@@ -272,38 +323,54 @@ Fixpoint run (g : cfg) (sty : servertype) (st : conns) (evs : list event) : list
 
 (* the whole output trace of an event list, from the initial state *)
 Definition trace (g : cfg) (sty : servertype) (evs : list event) : list out :=
-  concat (run g sty init evs).
+  concat (run g sty init_state evs).
 
 (* what event [e] produces after the history [pre] *)
 Definition outs_of (g : cfg) (sty : servertype) (pre : list event) (e : event) : list out :=
-  snd (step g sty (final g sty init pre) e).
+  snd (step g sty (final g sty init_state pre) e).
+
+(* the registry after a history, and — independently of the machine — what the application's own
+   register / unregister calls say it should be *)
+Definition reg_after (g : cfg) (sty : servertype) (pre : list event) : registry :=
+  s_reg (final g sty init_state pre).
+Fixpoint reg_of_history (r : registry) (evs : list event) : registry :=
+  match evs with
+  | [] => r
+  | EvApp a :: rest => reg_of_history (app_reg r a) rest
+  | EvConn _ :: rest => reg_of_history r rest
+  end.
 
 (* ---- vocabulary of the theorems ---- *)
 (* the property's notion of a completed handshake, stated on the input alone *)
-Definition is_accepted_msg (g : cfg) (m : msg) : bool :=
+Definition is_accepted_msg (g : cfg) (reg : registry) (m : msg) : bool :=
   (m_type m =? c_connect g)%N &&
   match m_wf m with WfOk => true | _ => false end &&
   m_ser_known m &&
-  match m_hs m with HsFull ObjKnown => true | _ => false end &&
+  match m_hs m with HsFull o => obj_registered reg o | _ => false end &&
   match m_val m with VAccept true => true | _ => false end.
 
-Definition is_accepted_connect (g : cfg) (sty : servertype) (e : event) : bool :=
+(* [reg]: the registry at the moment the event is processed *)
+Definition is_accepted_connect (g : cfg) (sty : servertype) (reg : registry) (e : cevent) : bool :=
   negb (denied_applies sty e) &&
-  match e_in e with InMsg m => is_accepted_msg g m | _ => false end.
+  match e_in e with InMsg m => is_accepted_msg g reg m | _ => false end.
 
 (* the first event makes the validator raise a BaseException-only class (and the code does not contain it) *)
-Definition validator_aborts (g : cfg) (sty : servertype) (e : event) : bool :=
+Definition validator_aborts (g : cfg) (sty : servertype) (e : cevent) : bool :=
   negb (denied_applies sty e) && q_abort_unanswered g &&
   match e_in e with
   | InMsg m => validator_reached g m && match m_val m with VAbort _ => true | _ => false end
   | _ => false
   end.
 
-Definition peer_gone (e : event) : bool := match e_in e with InPeerGone => true | _ => false end.
+Definition peer_gone (e : cevent) : bool := match e_in e with InPeerGone => true | _ => false end.
 
 (* connection c is new and the daemon is serving *)
 Definition fresh (g : cfg) (sty : servertype) (pre : list event) (c : nat) : Prop :=
-  final g sty init pre c = NotHandshaken.
+  s_conns (final g sty init_state pre) c = NotHandshaken.
+
+(* the connection an event belongs to (application events belong to none) *)
+Definition ev_conn (e : event) : option nat :=
+  match e with EvConn ce => Some (e_conn ce) | EvApp _ => None end.
 
 Fixpoint list_eqbN (a b : list N) : bool :=
   match a, b with
